@@ -30,46 +30,56 @@ theorem precision_rule (p a : Nat) (hp : p ≤ 6) :
 theorem soft_gen_eq_spec (size : Res Nat) (pr : Params) (d : Dist) (t : Nat) (ins : List In) (outs : List Out)
     (ht : t < 2^64) (hi : InsInRange ins) (ho : OutsInRange outs) (hb : pr.burn < 2^32) (hp : pr.prec < 256) :
     verifySoft genPrims size pr d t ins outs = verifySoft specPrims size pr d t ins outs := by
-  have hin := inputHours_gen_eq t ht ins 0 hi (by decide)
-  have hout := outputHours_gen_eq outs 0 ho (by decide)
-  unfold verifySoft transactionFee verifyTransactionFee
-  rw [hin, hout, precisionAll_gen_eq pr.prec hp outs]
+  have h0 : (0 : Nat) < 2^64 := Nat.two_pow_pos 64
+  have hin := inputHours_gen_eq t ht ins 0 hi h0
+  have hout := outputHours_gen_eq outs 0 ho h0
+  have hfee : transactionFee genPrims t ins outs = transactionFee specPrims t ins outs := by
+    unfold transactionFee; rw [hin, hout]
+  have hfeelt : ∀ f, transactionFee specPrims t ins outs = .ok f → f < 2^64 := by
+    intro f hf
+    unfold transactionFee at hf
+    cases hI : inputHours specPrims t ins 0 with
+    | panic p => rw [hI] at hf; cases hf
+    | err e => rw [hI] at hf; cases hf
+    | ok hinv =>
+      obtain ⟨_, _, _, h3⟩ := (inputHours_ok_iff t ins 0 hinv h0).1 hI
+      rw [hI] at hf
+      cases hO : outputHours specPrims outs 0 with
+      | panic p => rw [hO] at hf; cases hf
+      | err e => rw [hO] at hf; cases hf
+      | ok houtv =>
+        rw [hO] at hf
+        simp only [] at hf
+        split at hf
+        · cases hf
+        · cases hf; unfold sub64; omega
+  have hvf : ∀ f, f < 2^64 →
+      verifyTransactionFee genPrims outs f pr.burn = verifyTransactionFee specPrims outs f pr.burn := by
+    intro f hf
+    unfold verifyTransactionFee
+    rw [hout, outputHours_spec outs 0 h0]
+    simp only [Nat.zero_add]
+    by_cases hso : sumOut outs < 2^64
+    · simp only [hso, if_true]
+      exact verifyFee_spec _ _ _ hso hf hb
+    · simp only [hso, if_false]
+  unfold verifySoft
+  rw [hfee, precisionAll_gen_eq pr.prec hp outs]
   cases size with
-  | panic p => rfl
-  | err e => rfl
+  | panic p => simp only []
+  | err e => simp only []
   | ok sz =>
     simp only []
-    split; · rfl
-    cases hI : inputHours specPrims t ins 0 with
-    | panic p => rfl
-    | err e => rfl
-    | ok hinv =>
-      have hinlt : hinv < 2^64 := by
-        obtain ⟨hs, _, _, h3⟩ := (inputHours_ok_iff t ins 0 hinv (by decide)).1 hI
-        exact h3
-      simp only []
-      rw [outputHours_spec outs 0 (by decide)]
-      simp only [Nat.zero_add]
-      by_cases hso : sumOut outs < 2^64
-      · simp only [hso, if_true]
-        by_cases hlt : hinv < sumOut outs
-        · simp only [hlt, if_true]
-        · simp only [hlt, if_false]
-          have hfee : sub64 hinv (sumOut outs) < 2^64 := by unfold sub64; omega
-          have : genPrims.verifyFee (sumOut outs) (sub64 hinv (sumOut outs)) pr.burn =
-              specPrims.verifyFee (sumOut outs) (sub64 hinv (sumOut outs)) pr.burn :=
-            verifyFee_spec _ _ _ hso hfee hb
-          rw [this]
-      · simp only [hso, if_false]
-
-/-- whether any input is owned by a still-locked distribution address -/
-def spendsLocked (d : Dist) (ins : List In) : Bool :=
-  ins.any fun i => match i.addr with
-    | some k => d.unlocked ≤ k && k < d.n
-    | none => false
+    by_cases hsz : sz > pr.maxSize
+    · simp only [hsz, if_true]
+    · simp only [hsz, if_false]
+      cases hF : transactionFee specPrims t ins outs with
+      | panic p => simp only []
+      | err e => simp only []
+      | ok f => simp only []; rw [hvf f (hfeelt f hF)]
 
 /-- **the soft rules as a decision list** (first failing rule decides the error), in terms of plain
-sums: `hin` = total accrued input hours at the head time, `sumOut` = total output hours. -/
+sums: `hs.sum` = total accrued input hours at the head time, `sumOut` = total output hours. -/
 theorem soft_decision (sz : Nat) (pr : Params) (d : Dist) (t : Nat) (ins : List In) (outs : List Out)
     (hv : ValidParams pr d) (hs : List Nat) (hh : HoursAre t ins hs) (hfit : hs.sum < 2^64) :
     verifySoft specPrims (.ok sz) pr d t ins outs =
@@ -80,67 +90,31 @@ theorem soft_decision (sz : Nat) (pr : Params) (d : Dist) (t : Nat) (ins : List 
       else if hs.sum - sumOut outs < ceilDiv hs.sum pr.burn then .err (.named "ErrTxnInsufficientFee")
       else if spendsLocked d ins then .err (.named "ErrTxnIsLocked")
       else precisionAll specPrims pr.prec outs := by
-  have hI : inputHours specPrims t ins 0 = .ok hs.sum :=
-    (inputHours_ok_iff t ins 0 hs.sum (by decide)).2 ⟨hs, hh, by simp, hfit⟩
-  unfold verifySoft transactionFee verifyTransactionFee
-  simp only [hI]
+  unfold verifySoft
+  dsimp only
+  rw [transactionFee_closed t ins outs hs hh hfit, isLocked_closed d ins hv.dist]
   by_cases h1 : sz > pr.maxSize
-  · simp [h1]
-  simp only [h1, if_false]
-  rw [outputHours_spec outs 0 (by decide)]
-  simp only [Nat.zero_add]
-  by_cases h2 : sumOut outs < 2^64
-  · simp only [h2, if_true, not_true, if_false]
-    by_cases h3 : hs.sum < sumOut outs
-    · simp [h3]
-    simp only [h3, if_false]
-    have hsub : sub64 hs.sum (sumOut outs) = hs.sum - sumOut outs := by unfold sub64; omega
-    have hburn := hv.burn_lo
-    simp only [hsub, specPrims, specVerifyFee]
-    by_cases h4 : hs.sum - sumOut outs = 0
-    · simp [h4]
-    simp only [h4, if_false]
-    have htot : sumOut outs + (hs.sum - sumOut outs) = hs.sum := by omega
-    rw [htot, if_neg (by omega), if_neg (by omega)]
-    by_cases h5 : hs.sum - sumOut outs < ceilDiv hs.sum pr.burn
-    · simp [h5]
-    simp only [h5, if_false]
-    have hd := hv.dist
-    simp only [isLocked, show ¬ d.n < d.unlocked by omega, if_false]
-    cases hl : spendsLocked d ins with
-    | true => simp only [spendsLocked] at hl; rw [hl]; rfl
-    | false => simp only [spendsLocked] at hl; rw [hl]; rfl
-  · simp [h2]
-
-theorem precisionAll_ok_iff (prec : Nat) (hp : prec ≤ 6) : ∀ outs : List Out,
-    precisionAll specPrims prec outs = .ok () ↔ ∀ o ∈ outs, o.coins % 10 ^ (6 - prec) = 0
-  | [] => by simp [precisionAll]
-  | o :: r => by
-    simp only [precisionAll, specPrims, specPrecisionCheck, show ¬ prec > 6 by omega, if_false]
-    by_cases h : o.coins % 10 ^ (6 - prec) = 0
-    · simp only [h, ne_eq, not_true, if_false]
-      have ih := precisionAll_ok_iff prec hp r
-      simp only [specPrims] at ih
-      rw [ih]
-      simp [h]
-    · simp only [h, ne_eq, not_false_eq_true, if_true]
-      constructor
-      · intro hc; cases hc
-      · intro hall; exact absurd (hall o (List.mem_cons_self ..)) h
-
-/-- a precision failure is reported as ErrInvalidDecimals (never anything else, never a panic) -/
-theorem precisionAll_cases (prec : Nat) (hp : prec ≤ 6) : ∀ outs : List Out,
-    precisionAll specPrims prec outs = .ok () ∨
-    precisionAll specPrims prec outs = .err (.named "ErrInvalidDecimals")
-  | [] => Or.inl rfl
-  | o :: r => by
-    simp only [precisionAll, specPrims, specPrecisionCheck, show ¬ prec > 6 by omega, if_false]
-    by_cases h : o.coins % 10 ^ (6 - prec) = 0
-    · simp only [h, ne_eq, not_true, if_false]
-      have ih := precisionAll_cases prec hp r
-      simp only [specPrims] at ih
-      exact ih
-    · simp [h]
+  · rw [if_pos h1, if_pos h1]
+  rw [if_neg h1, if_neg h1]
+  by_cases h2 : ¬ sumOut outs < 2^64
+  · rw [if_pos h2, if_pos h2]
+  rw [if_neg h2, if_neg h2]
+  by_cases h3 : hs.sum < sumOut outs
+  · rw [if_pos h3, if_pos h3]
+  rw [if_neg h3, if_neg h3]
+  dsimp only
+  rw [verifyTransactionFee_closed, if_neg h2,
+    specVerifyFee_closed hs.sum (sumOut outs) pr.burn (by omega) hfit hv.burn_lo]
+  by_cases h4 : hs.sum - sumOut outs = 0
+  · rw [if_pos h4, if_pos h4]
+  rw [if_neg h4, if_neg h4]
+  by_cases h5 : hs.sum - sumOut outs < ceilDiv hs.sum pr.burn
+  · rw [if_pos h5, if_pos h5]
+  rw [if_neg h5, if_neg h5]
+  dsimp only
+  cases spendsLocked d ins with
+  | true => rfl
+  | false => rfl
 
 /-- **C11, first sentence.** A transaction passes the soft rules iff its encoded size is within the
 limit, every input's accrued hours are defined and their sum fits 64 bits, the output hours fit and
@@ -170,7 +144,7 @@ theorem soft_iff (size : Res Nat) (pr : Params) (d : Dist) (t : Nat) (ins : List
         | err e => rw [hI] at h; simp at h
         | ok hin => exact ⟨hin, rfl⟩
       obtain ⟨hin, hI⟩ := hI
-      obtain ⟨hs, hh, hsum, hfit⟩ := (inputHours_ok_iff t ins 0 hin (by decide)).1 hI
+      obtain ⟨hs, hh, hsum, hfit⟩ := (inputHours_ok_iff t ins 0 hin (Nat.two_pow_pos 64)).1 hI
       simp only [Nat.zero_add] at hsum
       subst hsum
       rw [soft_decision sz pr d t ins outs hv hs hh hfit] at h
@@ -192,6 +166,18 @@ theorem soft_iff (size : Res Nat) (pr : Params) (d : Dist) (t : Nat) (ins : List
     rw [if_neg (by omega), if_neg (by omega), if_neg (by omega), if_neg h4, if_neg (by omega), h6]
     simp only [Bool.false_eq_true, if_false]
     exact (precisionAll_ok_iff pr.prec hv.prec outs).2 h7
+
+/-- the same equivalence stated directly for the model over the REGENERATED primitives (all 64-bit
+field values) -/
+theorem soft_iff_regenerated (size : Res Nat) (pr : Params) (d : Dist) (t : Nat) (ins : List In) (outs : List Out)
+    (hv : ValidParams pr d) (ht : t < 2^64) (hi : InsInRange ins) (ho : OutsInRange outs) :
+    verifySoft genPrims size pr d t ins outs = .ok () ↔
+      ∃ sz hs, size = .ok sz ∧ sz ≤ pr.maxSize ∧ HoursAre t ins hs ∧ hs.sum < 2^64 ∧
+        sumOut outs < 2^64 ∧ sumOut outs ≤ hs.sum ∧ hs.sum - sumOut outs ≠ 0 ∧
+        ceilDiv (sumOut outs + (hs.sum - sumOut outs)) pr.burn ≤ hs.sum - sumOut outs ∧
+        spendsLocked d ins = false ∧ ∀ o ∈ outs, o.coins % 10 ^ (6 - pr.prec) = 0 := by
+  rw [soft_gen_eq_spec size pr d t ins outs ht hi ho hv.burn_hi (by have := hv.prec; omega)]
+  exact soft_iff size pr d t ins outs hv
 
 /-- the required fee of the regenerated code is the ceiling used above (from C31) -/
 theorem required_fee_is_ceil (h bf : Nat) (hh : h < 2^64) (hbf : 2 ≤ bf) (hbf' : bf < 2^32) :
@@ -238,5 +224,21 @@ theorem softHard_soft_iff (hard soft : Res Unit) (e : Err) :
 theorem softHard_ok_iff (hard soft : Res Unit) :
     verifySoftHard hard soft = .ok ↔ hard = .ok () ∧ soft = .ok () := by
   cases hard <;> cases soft <;> simp [verifySoftHard, wrapHard, wrapSoft]
+
+/-! ### non-vacuity -/
+
+def vp : Params := ⟨32768, 10, 3⟩
+def vd : Dist := ⟨100, 25⟩
+
+example : ValidParams vp vd := ⟨by decide, by decide, by decide, by decide, by decide⟩
+-- 2 coins held for 10 hours with 100 initial hours: 120 input hours; fee 12 = ⌈120/10⌉ is exactly enough
+example : verifySoft specPrims (txnSize 1 1 2) vp vd 36000 [⟨2000000, 100, 0, none⟩] [⟨1000000, 100⟩, ⟨1000000, 8⟩] = .ok () := by decide
+example : verifySoft specPrims (txnSize 1 1 2) vp vd 36000 [⟨2000000, 100, 0, none⟩] [⟨1000000, 100⟩, ⟨1000000, 9⟩]
+    = .err (.named "ErrTxnInsufficientFee") := by decide
+example : verifySoft specPrims (txnSize 1 1 2) vp vd 36000 [⟨2000000, 100, 0, some 25⟩] [⟨1000000, 100⟩, ⟨1000000, 8⟩]
+    = .err (.named "ErrTxnIsLocked") := by decide
+example : verifySoft specPrims (txnSize 1 1 2) vp vd 36000 [⟨2000000, 100, 0, some 24⟩] [⟨1000100, 100⟩, ⟨999900, 8⟩]
+    = .err (.named "ErrInvalidDecimals") := by decide
+example : HoursAre 36000 [⟨2000000, 100, 0, none⟩] [120] := by unfold HoursAre; decide
 
 end Sky.Props.C11
